@@ -421,3 +421,35 @@ package twig
 //@   ensures ret != nil
 //@ func NewFunctionViolation props: C06
 //@   ensures ret != nil
+
+// ---------------------------------------------------------------- compiled templates (C16)
+// Serialised form = the item sequence [u8 1, u32 len(Name), bytes Name, u32 len(Source), bytes Source,
+// i64 LastModified, i64 CompileTime, u32 len(AST), bytes AST]. Writer and reader are both proved
+// against this layout; that encoding/binary reads back what it wrote is the dependency's contract.
+//@ func getBuffer props: C16
+//@   flag streams yes
+//@   fresh
+//@   modifies nothing
+//@   ensures wlen(ret) == 0
+//@ func writeString props: C16 C05
+//@   flag streams yes
+//@   arith checked
+//@   modifies stream(w)
+//@   ensures err == nil ==> wlen(w) == old(wlen(w)) + 2 && witem(w, old(wlen(w))) == iU32(len(s)) && witem(w, old(wlen(w)) + 1) == iBytes(s)
+//@   ensures forall k int :: 0 <= k && k < old(wlen(w)) ==> witem(w, k) == old(witem(w, k))
+//@ func readString props: C16
+//@   flag streams yes
+//@   modifies reader(r)
+//@   ensures old(rpos(r)) + 1 < rlen(r) && isU32(ritem(r, old(rpos(r)))) && isBytes(ritem(r, old(rpos(r)) + 1)) && len(bytesval(ritem(r, old(rpos(r)) + 1))) == u32val(ritem(r, old(rpos(r)))) ==> err == nil && ret0 == bytesval(ritem(r, old(rpos(r)) + 1)) && rpos(r) == old(rpos(r)) + 2
+//@ define lenPrefixed(D, I) (isU32(ditem(D, I)) && isBytes(ditem(D, I + 1)) && len(bytesval(ditem(D, I + 1))) == u32val(ditem(D, I)))
+//@ func SerializeCompiledTemplate props: C16
+//@   flag streams yes
+//@   ensures err == nil ==> dlen(ret0) == 9 && ditem(ret0, 0) == iU8(1) && ditem(ret0, 1) == iU32(len(compiled.Name)) && ditem(ret0, 2) == iBytes(compiled.Name) && ditem(ret0, 3) == iU32(len(compiled.Source)) && ditem(ret0, 4) == iBytes(compiled.Source)
+//@   ensures err == nil ==> ditem(ret0, 5) == iI64(compiled.LastModified) && ditem(ret0, 6) == iI64(compiled.CompileTime) && ditem(ret0, 7) == iU32(len(compiled.AST)) && ditem(ret0, 8) == iBytes(bytesStr(compiled.AST))
+//@ func deserializeBinaryFormat props: C16
+//@   flag streams yes
+//@   ensures dlen(data) == 9 && ditem(data, 0) == iU8(1) && lenPrefixed(data, 1) && lenPrefixed(data, 3) && isI64(ditem(data, 5)) && isI64(ditem(data, 6)) && lenPrefixed(data, 7) ==> err == nil && ret0.Name == bytesval(ditem(data, 2)) && ret0.Source == bytesval(ditem(data, 4)) && ret0.LastModified == i64val(ditem(data, 5)) && ret0.CompileTime == i64val(ditem(data, 6)) && bytesStr(ret0.AST) == bytesval(ditem(data, 8))
+// loading keeps name, source and timestamp of the compiled template
+//@ func LoadFromCompiled props: C16
+//@   nonnil compiled
+//@   ensures err == nil ==> ret0.name == compiled.Name && ret0.source == compiled.Source && ret0.lastModified == compiled.LastModified && ret0.env == env && ret0.engine == engine
